@@ -12,7 +12,7 @@
 //                    announcements as real GRANDPA consensus digests, scheduled before forced),
 //                    then ApplyForcedChanges
 //            f<blk>  finalise: BlockState.SetFinalisedHash, ApplyScheduledChanges
-//   The case stops after the first event that returns an error.
+//   The history continues after an event that returns an error (the block stays imported / finalised).
 // observed: per executed event seven tokens
 //   <ok|err:digest|err:forced|err:sched>
 //   s=<current set id>
@@ -77,7 +77,7 @@ type c23Change struct {
 func c23Gen(r *vu.RNG, n int, emit func(string)) {
 	for _, s := range []string{
 		// forced changes inserted out of order of effective number (sort.Search predicate)
-		"hist 0;1;2;3;1;5 f5,3,5,0;f6,0,6,0 i1;i2;i3;i4;i5;i6;i7",
+		"hist 0;1;2;3;1;5 f5,3,5,0;f6,0,6,0 i1;i2;i3;i4;i5;i6",
 		// scheduled change with a delay, finalising a block between announcement and effect
 		"hist 0;1;2;3 s1,2,5 i1;i2;i3;i4;f2;f3;f4",
 		// scheduled change applied by finalising beyond its effective block
@@ -402,9 +402,9 @@ func c23Run(in string) string {
 		}
 		out = append(out, res)
 		snapshot()
-		if res != "ok" {
-			break
-		}
+		// second round: the history continues after a failing event (core.Service.handleBlock has
+		// added the block before HandleDigests / ApplyForcedChanges can fail; a failing
+		// ApplyScheduledChanges leaves the block finalised)
 	}
 	return strings.Join(out, " ")
 }
